@@ -73,13 +73,21 @@ def run_case(rng, tier, idx):
     cc = gen.build_shell(d)
     if imperfect:
         cc.c0 = np.array(d['imp']['c0']); cc.m0 = m0; cc.n0 = n0; cc.funcnum = d['imp']['funcnum']
+    # 35%: the linear stiffness comes from a twin object and the object under test is fresh when its internal force is first asked
+    fresh = bool(rng.random() < 0.35)
+    c.tag('order:fresh' if fresh else 'order:k0_first')
+    ck = cc
+    if fresh:
+        ck = gen.build_shell(d)
+        if imperfect:
+            ck.c0 = np.array(d['imp']['c0']); ck.m0 = m0; ck.n0 = n0; ck.funcnum = d['imp']['funcnum']
     try:
-        k0uu = cc.calc_k0(silent=True).toarray()
+        k0uu = ck.calc_k0(silent=True).toarray()
     except Exception as e:
         return c.reject('%s in calc_k0: %s' % (type(e).__name__, str(e)[:100]))
     n = k0uu.shape[0]
-    size = cc.get_size()
-    free = np.setdiff1d(np.arange(size), cc.excluded_dofs)
+    size = ck.get_size()
+    free = np.setdiff1d(np.arange(size), ck.excluded_dofs)
     h = d.get('h') or d['plyt'] * len(d['stack'])
     md = __import__('compmech.conecyl.modelDB', fromlist=['db']).db[model]
     num0, num1, num2 = md['num0'], md['num1'], md['num2']
@@ -112,7 +120,15 @@ def run_case(rng, tier, idx):
         c.hit('calc_kT')
         return cc.calc_kT(np.ascontiguousarray(cu), inc=inc, silent=True).toarray()
     try:
+        if fresh:
+            cprobe = rng.normal(size=n) * sc_free
+            f_first = fint(cprobe)
+            k_first = kT(cprobe) if rng.random() < 0.5 else None
         f0 = fint(np.zeros(n))
+        if fresh:
+            f_again = fint(cprobe)
+            c.expect('fint asked first on a fresh shell equals fint of the same state asked again', np.array_equal(f_first, f_again),
+                     'max diff %r' % float(np.abs(f_first - f_again).max()))
     except Exception as e:
         return c.reject('%s in calc_fint: %s' % (type(e).__name__, str(e)[:100]))
     if not prescribed and not imperfect:
